@@ -653,7 +653,7 @@ func (m *Monitor) beforeCall(i int, op *Op, f *Fn) {
 		if op.Invalid == "" {
 			m.regs = append(m.regs, reg)
 			cyc, allOH := m.gsCycle([]*Reg{reg}, true, false)
-			pc.mustCycle = cyc && allOH && !m.deferV
+			pc.mustCycle = ((cyc && allOH) || m.viewCycleThrough(reg)) && !m.deferV
 			pc.mayCycle = !m.deferV && m.gpCyclic(false)
 			m.regs = m.regs[:len(m.regs)-1]
 		}
